@@ -108,6 +108,15 @@ Proof.
   intros S kinds Hk Hz. split.
   - repeat split; auto.
   - split; [|split; [|exact I]].
-    + intros t H. vm_compute in H. inversion H. simpl. repeat split; auto.
-    + intros t H. vm_compute in H. inversion H. exact I.
+    + split.
+      * intros t H. vm_compute in H. inversion H. simpl. repeat split; auto.
+      * intros pa H. discriminate.
+    + split.
+      * intros t H. vm_compute in H. inversion H. exact I.
+      * intros pa H. discriminate.
 Qed.
+
+(* non-vacuity of the function-free arm: grad of a coordinate-dependent coefficient *)
+Example C03_coefficient_gradient :
+  exists t, logical 2 "M" (LGrad (LMul [LCoord 0; LFn Fsin (LCoord 1)])) = Some t.
+Proof. eexists. vm_compute. reflexivity. Qed.
